@@ -465,7 +465,7 @@ func (s *Store) update(k Key, ki KindInfo, in map[string]any, dry bool) (map[str
 }
 
 // immutable enforces the CRD validation rules PKO's ObjectSet APIs carry
-// (phases / previous / availabilityProbes are immutable, Archived is final).
+// (phases / previous / availabilityProbes / successDelaySeconds are immutable; lifecycleState transitions are NOT restricted).
 func (s *Store) immutable(k Key, old, m map[string]any) error {
 	if k.Group != "package-operator.run" || (k.Kind != "ObjectSet" && k.Kind != "ClusterObjectSet") {
 		return nil
@@ -476,9 +476,6 @@ func (s *Store) immutable(k Key, old, m map[string]any) error {
 		if !reflect.DeepEqual(normalizeAny(os[f]), normalizeAny(ns[f])) {
 			return apierrors.NewInvalid(schema.GroupKind{Group: k.Group, Kind: k.Kind}, k.Name, nil)
 		}
-	}
-	if getStr(os, "lifecycleState") == "Archived" && getStr(ns, "lifecycleState") != "Archived" {
-		return apierrors.NewInvalid(schema.GroupKind{Group: k.Group, Kind: k.Kind}, k.Name, nil)
 	}
 	return nil
 }
